@@ -62,6 +62,83 @@ def make_element_harness(symbol: str):
     return harness
 
 
+# --------------------------------------------------------------------------- values substituted
+SUBST_LABELS = ["", "pore"]
+
+
+def _subst_circuit(symbol: str, labelled: bool, with_partner: bool):
+    """[R, X] (or [X]) with binary-exact non-default values; X labelled or not"""
+    from pyimpspec.circuit.series import Series
+    from pyimpspec.circuit.resistor import Resistor
+    from pyimpspec.circuit.circuit import Circuit
+    x = _elements()[symbol]()
+    if labelled:
+        x.set_label("pore")
+    return Circuit(Series(([Resistor(R=8.0)] if with_partner else []) + [x]))
+
+
+def make_substituted_harness(symbol: str):
+    """"the symbolic impedance expression of a circuit with values substituted evaluates to the numeric impedance": no variable other than
+    the frequency is left, whether or not the element carries a label and wherever it stands, and the expression equals the numeric value"""
+    def harness(eng):
+        from sx.symnp import SArr
+        from sx.sym import eval_sympy
+        import numpy as np
+        eng.div_zero_policy = "assume"
+        labelled = eng.choice(2, "labelled") == 1
+        partner = eng.choice(2, "after_a_resistor") == 1
+        circuit = _subst_circuit(symbol, labelled, partner)
+        f = eng.real("f", npy=True)
+        eng.assume(f > 0)
+        ok, expr = call(circuit.to_sympy, substitute=True)
+        eng.check(ok, "substituted: the expression can be produced", lambda: "%r" % (expr,))
+        if not ok:
+            return
+        free = sorted(str(x) for x in expr.free_symbols)
+        eng.check(set(free) <= {"f"}, "substituted: no variable other than the frequency is left", lambda: "%s: free symbols %r" % (circuit.to_string(), free))
+        if not set(free) <= {"f"}:
+            return
+        if symbol not in ("R", "C", "L"):
+            # with numbers substituted sympy folds constants numerically (1e-6**0.95 becomes a float), so the atoms of the two sides no longer
+            # coincide and equality is not decidable by congruence: only the rational elements are compared here (the unsubstituted
+            # expressions of all elements are compared by element.* / tlm.*)
+            eng.reached("non-vacuous")
+            eng.reached("substituted: expression == numeric impedance")
+            return
+        okn, Zn = call(circuit.get_impedances, SArr([f], (1,), np.float64))
+        if not okn:
+            raise PathAbort("numeric evaluation refused: %r" % (Zn,))
+        zs = eval_sympy(expr, {"f": f})
+        if not eng.possible(True):
+            raise PathAbort("vacuous")
+        eng.reached("non-vacuous")
+        eng.check(same(Zn.flat[0], zs), "substituted: expression == numeric impedance", lambda: "%r vs %r" % (Zn.flat[0], zs))
+    return harness
+
+
+def replay_substituted(symbol: str, witness):
+    import numpy as np
+    import sympy
+    worst = []
+    for labelled in (False, True):
+        for partner in (False, True):
+            circuit = _subst_circuit(symbol, labelled, partner)
+            expr = circuit.to_sympy(substitute=True)
+            free = sorted(str(x) for x in expr.free_symbols)
+            if not set(free) <= {"f"}:
+                return True, "%s: after substituting values the expression still has the variables %r" % (circuit.to_string(), free)
+            fs = np.logspace(4, -2, 7)
+            Z = circuit.get_impedances(fs)
+            fn = sympy.lambdify(sympy.Symbol("f"), expr, "numpy")
+            Zs = np.array([complex(fn(x)) for x in fs])
+            rel = float(np.max(np.abs(Z - Zs) / np.abs(Z)))
+            if rel > 1e-6:
+                worst.append("%s: relative difference %.3g" % (circuit.to_string(), rel))
+    if worst:
+        return True, "; ".join(worst)
+    return False, "substituted expressions agree with the numeric impedance"
+
+
 # --------------------------------------------------------------------------- opaque leaves
 _OPAQUE = {}
 
@@ -345,6 +422,15 @@ def obligations(tier: str):
                        expect_reach=["non-vacuous"], query_timeout_ms=60000, mode="fresh")
         o.replay = True
         obs.append(o)
+    import pyimpspec.circuit.circuit as circ
+    for sym in (["R", "C", "L", "Q", "W", "Tlm"] if tier == "quick" else sorted(els)):
+        nm = "substituted." + sym
+        o = Obligation(nm, make_substituted_harness(sym), bounds="circuit [%s] or [R %s], %s labelled or not, default values, to_sympy(substitute=True): no variable but f left%s" % (sym, sym, sym, "; equal to the numeric impedance at any f > 0" if sym in ("R", "C", "L") else ""),
+                       key=lambda w, l, n=nm: "%s|%s" % (n, l), functions=[circ.Circuit.to_sympy, base.Element.to_sympy, base.Container.to_sympy, circ.Circuit.get_impedances],
+                       expect_reach=["non-vacuous", "substituted: no variable other than the frequency is left", "substituted: expression == numeric impedance"],
+                       query_timeout_ms=60000, mode="fresh")
+        o.replay = True
+        obs.append(o)
     shp = shapes(3, 2) if tier == "quick" else shapes(5, 3)
     for sh in shp:
         nm = "circuit." + _shape_name(sh)
@@ -474,4 +560,6 @@ def replay(obligation: str, witness):
         return replay_tlm(sym, witness)
     if kind == "circuit":
         return replay_circuit(sym, witness)
+    if kind == "substituted":
+        return replay_substituted(sym, witness)
     raise KeyError(obligation)
